@@ -30,6 +30,9 @@ INDICATOR_MAP = {
     "Amorph": Amorph,
     "Counter": Counter,
     "aroon": AROON,
+    "AROON": AROON,
+    "COUNT": Counter,
+    "DONCHIAN": Donchian,
     "ADX": ADX,
     "ATR": ATR,
     "BBANDS": BBANDS,
